@@ -312,10 +312,35 @@ class Tracker(object):
         if r is None:
             return False, "create", set()
         path, expect = r
-        if not self.lazy:
+        return True, path, expect
+
+    def sweep_touch(self, expect):
+        """an eager sweep reads font.info/kerning/groups/features: they are created at that moment"""
+        if not self.lazy and self.started:
             for p in LAZY_PARTS:
                 self.touch(p, expect)
-        return True, path, expect
+
+    def destructive(self, op):
+        """may the operation remove objects created since the last sweep? (then a sweep is taken before it,
+        so that `expected new roles` stays a statement about objects that are still reachable)"""
+        k = op[0]
+        if k in ("copyData", "deserializeGlyph", "deserializeContour", "deserialize", "reloadGlyphs", "removeSegment",
+                 "decompose"):
+            return True
+        if k in ("appendAnchor", "appendGuideline") and op[3] in ("list", "empty"):
+            return True
+        if k == "fontGuideline" and op[1] == "list":
+            return True
+        if k == "reloadPart" and op[1] == "info":
+            return True
+        try:
+            if k == "newGlyph":
+                return op[2] in self.layers[op[1]]
+            if k == "insertGlyph":
+                return op[3] in self.layers[op[2]]
+        except (KeyError, TypeError, IndexError):
+            return True
+        return False
 
     def _apply(self, op):
         k = op[0]
@@ -758,8 +783,8 @@ def gen_op(rng, tr, case):
 
 
 def gen_case(rng, maxops):
-    case = dict(custom=gen_custom(rng), lazy=rng.random() < 0.5, content=gen_content(rng),
-                src=gen_content(rng, min_glyphs=2), ops=[])
+    case = dict(custom=gen_custom(rng), lazy=rng.random() < 0.5, sweep=rng.choice([1, 1, 1, 2, 3, 99]),
+                content=gen_content(rng), src=gen_content(rng, min_glyphs=2), ops=[])
     case["src"]["layers"] = case["src"]["layers"][:1]
     tr = Tracker(case)
     first = ["open"] if rng.random() < 0.7 else ["new"]
@@ -781,7 +806,7 @@ def gen_case(rng, maxops):
     return case
 
 
-def kitchen_sink(rng, custom):
+def kitchen_sink(rng, custom, sweep=1):
     """one long directed history that runs every creation path on a rich font"""
     G1 = dict(contours=[dict(closed=True, segs=["line", "curve", "line", "line"]), dict(closed=False, segs=["move", "line", "curve"])],
               components=[], anchors=2, guidelines=1, image=True, lib=True, unicodes=[65])
@@ -816,7 +841,7 @@ def kitchen_sink(rng, custom):
             ["deserialize", "shallow", "data"], ["reverse", D, "A", 0, "reverse"], ["decompose", D, "B", "all"],
             ["deserialize", "self", "pickle"], ["reverse", D, "A", 0, "reverse"], ["split", D, "A", 0, 0],
             ["deserialize", "src", "data"], ["reverse", D, "A", 0, "reverse"], ["appendAnchor", D, "A", "dict"]]
-    return dict(custom=custom, lazy=True, content=content, src=src, ops=ops)
+    return dict(custom=custom, lazy=True, sweep=sweep, content=content, src=src, ops=ops)
 
 
 def generate(rng, tier):
@@ -824,6 +849,7 @@ def generate(rng, tier):
     # directed histories first: every path, all roles / one role at a time
     yield kitchen_sink(rng, dict((r, i + 1) for i, r in enumerate(ROLES)))
     yield kitchen_sink(rng, {})
+    yield kitchen_sink(rng, dict((r, i + 1) for i, r in enumerate(ROLES)), sweep=4)
     for r in (ROLES if tier == "thorough" else rng.sample(ROLES, 5)):
         yield kitchen_sink(rng, {r: 7})
     for _ in range(n):
@@ -877,15 +903,48 @@ def search(rng, tier, broken):
 # model side
 # ---------------------------------------------------------------------------------------
 
+def schedule(case):
+    """per operation: is it valid, and is the public API swept after it - with the creation-path queries
+    (path name, expected new roles) that sweep answers for.  `case["sweep"]` = k sweeps after every k-th
+    operation (1 = after each); a sweep is always taken at the end, around a `props` query and before an
+    operation that may remove objects.  Between sweeps operations run on whatever is loaded so far."""
+    tr = Tracker(case)
+    k = max(1, int(case.get("sweep", 1)))
+    ops = case["ops"]
+    res = []
+    pending = []
+    since = 0
+    for i, op in enumerate(ops):
+        ok, path, expect = tr.apply(op)
+        e = dict(ok=ok, path=path, expect=expect, props=bool(ok and op[0] == "props"), sweep=False, queries=[])
+        since += 1
+        if e["props"]:
+            res.append(e)
+            continue
+        if ok:
+            pending.append((path, set(expect)))
+        nxt = ops[i + 1] if i + 1 < len(ops) else None
+        if tr.started and (nxt is None or since >= k or nxt[0] == "props" or tr.destructive(nxt)):
+            extra = set()
+            tr.sweep_touch(extra)
+            if extra:
+                pending.append(("load" if tr.has_path else "create", extra))
+            e["sweep"] = True
+            e["queries"] = pending
+            pending = []
+            since = 0
+        res.append(e)
+    return res
+
+
 def model_lines(case):
     lines = [[Atom("config")] + [[Atom(r), int(i)] for r, i in sorted(case["custom"].items())]]
-    tr = Tracker(case)
-    for op in case["ops"]:
-        ok, path, expect = tr.apply(op)
-        if ok and op[0] == "props":
+    for op, e in zip(case["ops"], schedule(case)):
+        if e["props"]:
             lines.append([Atom("props"), Atom(op[1])])
         else:
-            lines.append([Atom("path"), Atom(path), [Atom(r) for r in ROLES if r in expect]])
+            lines.append([Atom("multi")] + [[Atom(path), [Atom(r) for r in ROLES if r in expect]]
+                                            for path, expect in e["queries"]])
     return lines
 
 
@@ -1284,31 +1343,40 @@ def run_impl(case):
     try:
         w = World(case, tmpd)
         outs = [Atom("ok")]
-        for i, op in enumerate(case["ops"]):
+        pending_ret = []
+        failed = False
+        for i, (op, e) in enumerate(zip(case["ops"], schedule(case))):
             ok, path, expect = w.tr.apply(op)
+            assert (ok, path, expect) == (e["ok"], e["path"], e["expect"])
             w.stats["op." + op[0]] = w.stats.get("op." + op[0], 0) + 1
             if not ok:
                 w.stats["skipped"] = w.stats.get("skipped", 0) + 1
-                outs.append([Atom("set")])
-                continue
-            w.stats["path." + path] = w.stats.get("path." + path, 0) + 1
-            for r in expect:
-                w.stats["hit.%s.%s" % (path, r)] = w.stats.get("hit.%s.%s" % (path, r), 0) + 1
-                if op[0] in ("removeSegment", "split", "appendPoint", "reverse", "copyData", "deserializeGlyph",
-                             "deserializeContour", "reloadGlyphs", "reloadLayers", "reloadPart"):
-                    w.stats["made.%s.%s" % (op[0], r)] = w.stats.get("made.%s.%s" % (op[0], r), 0) + 1
+            else:
+                w.stats["path." + path] = w.stats.get("path." + path, 0) + 1
+                for r in expect:
+                    w.stats["hit.%s.%s" % (path, r)] = w.stats.get("hit.%s.%s" % (path, r), 0) + 1
+                    if op[0] in ("removeSegment", "split", "appendPoint", "reverse", "copyData", "deserializeGlyph",
+                                 "deserializeContour", "reloadGlyphs", "reloadLayers", "reloadPart"):
+                        w.stats["made.%s.%s" % (op[0], r)] = w.stats.get("made.%s.%s" % (op[0], r), 0) + 1
             try:
-                if op[0] == "props":
+                if e["props"]:
                     outs.append(w.props(op[1]))
-                    w.observe(i, op, [])
+                    continue
+                if ok:
+                    pending_ret.extend(w.run(i, op))
+                if e["sweep"] and w.F is not None:
+                    w.tr.sweep_touch(set())
+                    outs.append(w.observe(i, op, pending_ret))
+                    pending_ret = []
+                    w.stats["sweeps"] = w.stats.get("sweeps", 0) + 1
                 else:
-                    ret = w.run(i, op)
-                    outs.append(w.observe(i, op, ret))
-            except Exception as e:
-                w.stats["err." + type(e).__name__] = w.stats.get("err." + type(e).__name__, 0) + 1
-                outs.append([Atom("err"), Atom(type(e).__name__), str(e)[:120]])
+                    outs.append([Atom("set")])
+            except Exception as ex:
+                w.stats["err." + type(ex).__name__] = w.stats.get("err." + type(ex).__name__, 0) + 1
+                outs.append([Atom("err"), Atom(type(ex).__name__), str(ex)[:120]])
         w.stats["custom.%02d" % len(case["custom"])] = 1
         w.stats["lazy" if case.get("lazy") else "eager"] = 1
+        w.stats["sweep_every.%d" % int(case.get("sweep", 1))] = 1
         w.stats["ops"] = len(case["ops"])
         nontrivial = bool(case["custom"]) and w.created_custom
         res = dict(out=outs, viol=w.viol, info=dict(nontrivial=nontrivial, stats=w.stats))
